@@ -3,9 +3,9 @@ CONSTANTS
   OptWriter = "all"
   OptKnown = TRUE
   InWriter = "positional"
-  OutWriter = "first"
+  OutWriter = "all"
   CloneKeeps = {"min", "max", "qdim", "peraxis"}
-  TableKept = "always"
+  TableKept = "scale_and_zp"
   CloneQuant = "private"
   MaxIn = 4
 INVARIANT OptionRoundTrip
